@@ -1,6 +1,7 @@
 import Driver.Common
 import FranzVerif.Model.C12
 import FranzVerif.Spec.C12
+import Driver.ShareHist
 /-! Sub-driver C12 (pure half). Input lines `op | impl`; output `model | verdict | nontrivial`.
 Entry token `off,status,src,epoch,id`; range token `first,last,src,epoch,type`.
 
@@ -181,7 +182,9 @@ def doTry (race : Bool) (op impl : List String) : String :=
 def step (_ : Unit) (line : String) : Unit × String :=
   let (op, impl) := splitBar line
   let its := toks impl
-  match toks op with
+  match (match toks op with | "ackr" :: r => r | r => r) with
+  | "share" :: _ => ((), Driver.ShareHist.handle impl)
+  | "sharedbg" :: _ => ((), Driver.ShareHist.debug impl)
   | "build" :: rest => ((), doBuild rest its)
   | "coal" :: rest => ((), doCoal rest its)
   | "stale" :: rest => ((), doStale rest its)
